@@ -26,11 +26,13 @@ func init() {
 		ID: "C39",
 		Explanation: "Decides a necessary condition of C39's 'no data races or fatal errors' clause for the interpreter's own shared state: (EVALER-LOCK) every field of Evaler declared under its mutex (global, builtin, deprecations, modules, valuePrefix, notifyBgJobSuccess, numBgJobs) is read only with mu held (read or write) and written only with the write lock held, on every path of every function in the program, a map loaded from such a field is not used after the lock is released, the lock is never re-acquired while held, released while not held, or still held at a return without a deferred unlock; (PTRVAR-LOCK) the pointer inside vars.PtrVar is dereferenced only under the PtrVar's mutex (write lock for ScanToGo). The field list is derived from the struct declaration (fields after mu), not hard-coded. It does not decide races on other shared state nor serialisability of results.",
 		NotCovered:  "races on state outside Evaler/PtrVar (e.g. Ns slots written by closures running in parallel, which Elvish leaves to the script), serialisability of evaluation results",
-		Rules:       []string{"EVALER-LOCK: lockset with boolean-correlated path sensitivity over all accesses to Evaler's guarded fields", "PTRVAR-LOCK: lockset for PtrVar.ptr under PtrVar.mutex", "GUARDED-SET: the guarded field set equals the fields declared after the mutex in the struct", "RLOCK-WRITE: contradiction rule over every struct with an RWMutex: no field of the struct is written while only its read lock is held"},
+		Rules:       []string{"EVALER-LOCK: lockset with boolean-correlated path sensitivity over all accesses to Evaler's guarded fields", "PTRVAR-LOCK: lockset for PtrVar.ptr under PtrVar.mutex", "GUARDED-SET: the guarded field set equals the fields declared after the mutex in the struct", "RMW-ATOMIC: a guarded field is not written with a value computed from a read of it made in an earlier critical section", "RLOCK-WRITE: contradiction rule over every struct with an RWMutex: no field of the struct is written while only its read lock is held"},
 		Run:         runC39,
-		MinCounts:   map[string]int{"EVALER-LOCK": 25, "PTRVAR-LOCK": 3, "RLOCK-WRITE": 5},
+		MinCounts:   map[string]int{"EVALER-LOCK": 25, "PTRVAR-LOCK": 3, "RLOCK-WRITE": 5, "RMW-ATOMIC": 3},
 		Trusted:     trustedBase,
 		Controls: []core.Control{
+			{Name: "eval-releases-lock-between-read-and-install", Rule: "RMW-ATOMIC", File: "pkg/eval/eval.go", Old: "\tif defaultGlobal {\n\t\tev.global = newLocal\n\t\tev.mu.Unlock()\n\t}", New: "\tif defaultGlobal {\n\t\tev.mu.Unlock()\n\t\tev.mu.Lock()\n\t\tev.global = newLocal\n\t\tev.mu.Unlock()\n\t}", Fire: true, Want: "Evaler.global", Quick: true, Patterns: []string{"./pkg/eval"}},
+			{Name: "extendglobal-two-critical-sections", Rule: "RMW-ATOMIC", File: "pkg/eval/eval.go", Old: "func (ev *Evaler) ExtendGlobal(ns Nser) {\n\tev.mu.Lock()\n\tdefer ev.mu.Unlock()\n\tev.global = CombineNs(ev.global, ns.Ns())", New: "func (ev *Evaler) ExtendGlobal(ns Nser) {\n\tev.mu.RLock()\n\told := ev.global\n\tev.mu.RUnlock()\n\tcombined := CombineNs(old, ns.Ns())\n\tev.mu.Lock()\n\tdefer ev.mu.Unlock()\n\tev.global = combined", Fire: true, Want: "ExtendGlobal", Patterns: []string{"./pkg/eval"}},
 			{Name: "revert-fix-use-reads-modules-unlocked", Rule: "EVALER-LOCK", File: "pkg/eval/builtin_special.go", Old: "if ns, ok := fm.Evaler.getModule(spec); ok {", New: "if ns, ok := fm.Evaler.modules[spec]; ok {", Fire: true, Want: "use", Quick: true, Patterns: []string{"./pkg/eval"}},
 			{Name: "revert-fix-checktree-map-after-unlock", Rule: "EVALER-LOCK", File: "pkg/eval/eval.go", Old: "b, g, modules := ev.builtin, ev.global, mapKeys(ev.modules)\n\tev.mu.RUnlock()", New: "b, g, m := ev.builtin, ev.global, ev.modules\n\tev.mu.RUnlock()\n\tmodules := mapKeys(m)", Fire: true, Want: "CheckTree", Patterns: []string{"./pkg/eval"}},
 			{Name: "extendglobal-without-lock", Rule: "EVALER-LOCK", File: "pkg/eval/eval.go", Old: "func (ev *Evaler) ExtendGlobal(ns Nser) {\n\tev.mu.Lock()\n\tdefer ev.mu.Unlock()\n", New: "func (ev *Evaler) ExtendGlobal(ns Nser) {\n", Fire: true, Want: "ExtendGlobal", Patterns: []string{"./pkg/eval"}},
@@ -110,6 +112,7 @@ func runC39(p *core.Program, r *core.Report) {
 	runLockset(p, r, "EVALER-LOCK", spec, p.RepoFns)
 	runLockset(p, r, "PTRVAR-LOCK", ptrVarSpec, p.FnsInPkg(pkgVars))
 	runRLockWrite(p, r, "RLOCK-WRITE")
+	runRMWAtomic(p, r, "RMW-ATOMIC", spec)
 }
 
 func runC32(p *core.Program, r *core.Report) {
